@@ -41,7 +41,8 @@ UNDECLARED_MECH = ("the watcher hashes a changed file whose node is detached and
 
 EVENT_KINDS = ["modify_source", "modify_source", "create_match", "delete_match", "modify_output",
                "delete_output", "remove_dir", "new_subdir", "move_dir", "create_delete", "modify_restore",
-               "delete_source", "restore_source", "touch_source", "new_sibling_dir", "new_empty_dir"]
+               "delete_source", "restore_source", "touch_source", "new_sibling_dir", "new_empty_dir",
+               "move_dir_then_write"]
 
 _installed = {"done": False}
 
@@ -100,6 +101,9 @@ def gen_cases(tier, seed):
              for i in range(n)]
     cases += [{"id": f"c14-deep-{seed}-{i}", "seed": seed * 6007 + 90000 + i, "rounds": 4, "scenario": "deep_glob"}
               for i in range(24 if tier == "quick" else 80)]
+    # one flat directory of glob matches that is moved out of reach of the pattern
+    cases += [{"id": f"c14-flat-{seed}-{i}", "seed": seed * 6007 + 95000 + i, "rounds": 3, "scenario": "flat_glob"}
+              for i in range(10 if tier == "quick" else 60)]
     return cases
 
 
@@ -232,6 +236,23 @@ def apply_event(rng, kind, user_files, memory):
                 user_files[tmp + p[len(d):]] = True
         memory["newdir"] = True
         return f"move {d} to {tmp}"
+    if kind == "move_dir_then_write" and srcdirs:
+        # inotify reports the write after the move, under the former name of the directory
+        d = rng.choice(srcdirs)
+        tmp = d + "-moved"
+        inside = [p for p in sources if p.startswith(d + os.sep)]
+        if os.path.exists(tmp) or not inside:
+            return None
+        os.rename(d, tmp)
+        for p in list(files):
+            if p.startswith(d + os.sep):
+                user_files[tmp + p[len(d):]] = True
+        q = tmp + rng.choice(inside)[len(d):]
+        with open(q) as fh:
+            old = fh.read()
+        H.write_file(q, old if rng.random() < 0.5 else old + "edited after the move\n")
+        memory["newdir"] = True
+        return f"move {d} to {tmp} and rewrite {q}"
     if kind == "create_delete" and srcdirs:
         d = rng.choice(srcdirs)
         p = os.path.join(d, f"tmp{rng.randrange(100)}.txt")
@@ -290,6 +311,14 @@ def run_case(case):
                 "plans": {".": [["static", ["src/s0.txt"]], ["pattern", "in/*/*.src"], ["glob", "in/*/*.src", tmpl],
                                 ["glob", "in/*/"], ["step", "t0"]]},
                 "order": ["t0"]}
+    elif case.get("scenario") == "flat_glob":
+        tmpl = {"cmd": "do " + json.dumps([{"a": "read", "path": "{m}"}, {"a": "write", "path": "out/g_{b}.txt"}]),
+                "inp": ["{m}"], "out": ["out/g_{b}.txt"]}
+        spec = {"sources": {"in/g0.src": "g0\n", "in/g1.src": "g1\n", "src/s0.txt": "s\n"}, "env": {},
+                "steps": {"t0": {"kind": "do", "salt": "", "inp": ["src/s0.txt"], "out": ["out/t0.txt"]}},
+                "plans": {".": [["static", ["src/s0.txt"]], ["pattern", "in/*.src"], ["glob", "in/*.src", tmpl],
+                                ["step", "t0"]]},
+                "order": ["t0"]}
     else:
         spec = gen.gen_project(rng)
     witness["spec"] = spec
@@ -331,7 +360,11 @@ def run_case(case):
                     for _ in range(rng.choice([1, 1, 2, 3])):
                         kind = rng.choice(EVENT_KINDS)
                         if case.get("scenario") == "deep_glob" and rng.random() < 0.4:
-                            kind = rng.choice(["new_empty_dir", "new_sibling_dir", "remove_dir", "move_dir"])
+                            kind = rng.choice(["new_empty_dir", "new_sibling_dir", "remove_dir", "move_dir",
+                                               "move_dir_then_write"])
+                        if case.get("scenario") == "flat_glob" and rng.random() < 0.6:
+                            kind = rng.choice(["move_dir_then_write", "move_dir_then_write", "move_dir", "new_subdir",
+                                               "remove_dir"])
                         desc = apply_event(rng, kind, user_files, memory)
                         if desc:
                             events.append([kind, desc])
